@@ -112,14 +112,9 @@ def run(chk, prog):
     chk.analysed(function=D.fn_table["full"])
     # ---- T1 -------------------------------------------------------------------------------------
     n = 0
-    for m in range(64):
-        sig = [".", ".", "."]
-        valid = True
-        for b, (a, s) in D.bits.items():
-            if m >> b & 1:
-                if sig[a] != ".":
-                    valid = False
-                sig[a] = s
+    for m in D.mask_range:
+        valid = m in D.class_of_mask
+        sig = D.class_of_mask.get(m, ("?", "?", "?"))
         got = D.table.get(m, D.default_value)
         n += 1
         if valid:
@@ -130,8 +125,8 @@ def run(chk, prog):
                          "negative / missing" if got is None or got < 0 else "already used by another mask"),
                         function=D.fn_table["full"], construct="mask %d" % m)
         else:
-            chk.require(got is not None and got < 0, "T1", "inconsistent exit mask %d is rejected" % m,
-                        where(D.fn_table), "a mask with both the low and the high bit of one axis returns %s" %
+            chk.require(got is not None and got < 0, "T1", "exit mask %d, which no index can produce, is rejected" % m,
+                        where(D.fn_table), "a mask that the classification of an index never produces returns %s" %
                         (D.name(got) if got is not None else None), function=D.fn_table["full"],
                         construct="mask %d" % m)
     n += 1
@@ -220,53 +215,208 @@ def run(chk, prog):
                                     "the expression mixes axes %s: %s" % (sorted(map(str, axes)), C.pretty(cpt)[:120]),
                                     function=fn["full"], construct="axis consistency line-free %s" %
                                     C.pretty(cpt)[:40])
-    # direction>0 <-> upper face
+    # ---- per-axis case evaluation -------------------------------------------------------------------------
+    # The face distance, the snap and the index step are decided semantically: for every axis a and both signs of
+    # direction[a] the right-hand sides are resolved through const locals, const arrays and conditional
+    # expressions to the array they finally read (cell_high / cell_low) or to the literal step.
     ifs = [s for s in C.walk_stmt(body) if s.get("k") == "If"]
+    consts = {}          # id -> init expr (const locals, const arrays with an initialiser list)
+    for st0 in C.walk_stmt(fn["body"]):
+        if st0.get("k") == "Decl":
+            for d in st0["d"]:
+                if d.get("init") is not None and (d.get("t") or "").startswith("const "):
+                    consts[d["id"]] = C.strip_casts(d["init"])
+
+    def sub_axis(idx, a, lv):
+        """Does subscript expression idx denote axis a (literal a, or the loop variable bound to a)?"""
+        ci = C.const_int(idx)
+        if ci is not None:
+            return ci == a
+        ii = C.strip_casts(idx)
+        return ii.get("k") == "Ref" and ii.get("n") in lv
+
+    def elem(e):
+        e = C.strip_casts(e)
+        if e.get("k") == "Idx":
+            return C.strip_casts(e["a"]), e["i"]
+        if e.get("k") == "Call" and e.get("op") == "[]" and e.get("obj") is not None and e["a"]:
+            return C.strip_casts(e["obj"]), e["a"][0]
+        return None, None
+
+    def ev_bool(e, a, sign, lv, depth=0):
+        """Truth of e for direction[a] of the given sign ('+' / '-'); None if it does not depend on that only."""
+        e = C.strip_casts(e)
+        if depth > 8:
+            return None
+        k2 = e.get("k")
+        if k2 == "Bin" and e["op"] in (">", "<") and zero_lit(e["b"]):
+            base, idx = elem(e["a"])
+            if base is not None and base.get("n") == "direction" and sub_axis(idx, a, lv):
+                return (sign == "+") == (e["op"] == ">")
+            return None
+        if k2 == "Bin" and e["op"] in ("||", "&&"):
+            x, y = ev_bool(e["a"], a, sign, lv, depth + 1), ev_bool(e["b"], a, sign, lv, depth + 1)
+            if e["op"] == "||":
+                return True if (x is True or y is True) else (False if (x is False and y is False) else None)
+            return False if (x is False or y is False) else (True if (x is True and y is True) else None)
+        if k2 == "Un" and e["op"] == "!":
+            x = ev_bool(e["x"], a, sign, lv, depth + 1)
+            return None if x is None else (not x)
+        if k2 == "Ref" and e.get("id") in consts:
+            return ev_bool(consts[e["id"]], a, sign, lv, depth + 1)
+        base, idx = elem(e)
+        if base is not None and base.get("k") == "Ref" and base.get("id") in consts and sub_axis(idx, a, lv):
+            init = consts[base["id"]]
+            if init.get("k") == "InitList" and len(init["a"]) == 3:
+                return ev_bool(init["a"][a], a, sign, set(), depth + 1)
+        return None
+
+    def resolve(e, a, sign, lv, depth=0):
+        """Leaf that e denotes for axis a and the given sign: ('arr', name) / ('int', v) / ('expr', ast)."""
+        e = C.strip_casts(e)
+        if depth > 8:
+            return ("expr", e)
+        ci = C.const_int(e)
+        if ci is not None:
+            return ("int", ci)
+        if e.get("k") == "Un" and e.get("op") == "-" and C.const_int(e["x"]) is not None:
+            return ("int", -C.const_int(e["x"]))
+        if e.get("k") == "Cond":
+            c = ev_bool(e["c"], a, sign, lv, depth + 1)
+            if c is None:
+                return ("expr", e)
+            return resolve(e["a"] if c else e["b"], a, sign, lv, depth + 1)
+        if e.get("k") == "Ref" and e.get("id") in consts:
+            return resolve(consts[e["id"]], a, sign, lv, depth + 1)
+        base, idx = elem(e)
+        if base is not None and sub_axis(idx, a, lv):
+            if base.get("n") in ("cell_high", "cell_low", "position"):
+                return ("arr", base["n"])
+            if base.get("k") == "Ref" and base.get("id") in consts:
+                init = consts[base["id"]]
+                if init.get("k") == "InitList" and len(init["a"]) == 3:
+                    return resolve(init["a"][a], a, sign, set(), depth + 1)
+        return ("expr", e)
+
+    def walls_in(e, a, sign, lv):
+        """The set of wall arrays the value of e reads for axis a under the sign case."""
+        out = set()
+
+        def rec(x):
+            x = C.strip_casts(x)
+            r = resolve(x, a, sign, lv)
+            if r[0] == "arr":
+                if r[1] in ("cell_high", "cell_low"):
+                    out.add(r[1])
+                return
+            if r[0] == "int":
+                return
+            x2 = r[1]
+            if x2.get("k") == "Cond":
+                out.add("?")
+                return
+            for ch in C.children_of(x2):
+                rec(ch)
+        rec(e)
+        return out
+
+    def stack_iter(st, stack):
+        yield st, stack
+        k2 = st.get("k")
+        if k2 == "Block":
+            for c2 in st.get("s", []):
+                yield from stack_iter(c2, stack)
+        elif k2 == "If":
+            if st.get("th") is not None:
+                yield from stack_iter(st["th"], stack + [("if", st, True)])
+            if st.get("el") is not None:
+                yield from stack_iter(st["el"], stack + [("if", st, False)])
+        elif k2 in ("For", "While", "Do"):
+            if st.get("body") is not None:
+                yield from stack_iter(st["body"], stack + [("loop", st, None)])
+
+    def loop_vars(stack):
+        lv = set()
+        for kind, st, _ in stack:
+            if kind == "loop" and st.get("k") == "For" and st.get("init") and st["init"].get("k") == "Decl":
+                d0 = st["init"]["d"][0]
+                cc = C.strip_casts(st.get("c"))
+                if C.const_int(d0.get("init")) == 0 and cc is not None and cc.get("k") == "Bin" and cc["op"] == "<" and \
+                        C.const_int(cc["b"]) == 3:
+                    lv.add(d0["n"])
+        return lv
+
+    def reachable_under(stack, a, sign, lv):
+        """False if an enclosing `if` excludes this sign case; the tie test l[a] == lmin counts as satisfiable."""
+        for kind, st, arm in stack:
+            if kind != "if":
+                continue
+            v = ev_bool(st["c"], a, sign, lv)
+            if v is not None and v != arm:
+                return False
+        return True
+
     face_rules = 0
-    for s in ifs:
-        c = C.strip_casts(s["c"])
-        if c.get("k") == "Bin" and c["op"] in (">", "<") and zero_lit(c["b"]) and \
-                axis_subscripts(c["a"], {"direction"}):
-            assigns = [x for x in C.walk_stmt(s["th"]) if x.get("k") == "Bin" and x["op"] == "=" and
-                       axis_subscripts(x["a"], {"l"})]
-            for x in assigns:
-                used = {nm for nm, _ in axis_subscripts(x["b"], {"cell_low", "cell_high"})}
-                want = "cell_high" if c["op"] == ">" else "cell_low"
-                n3 += 1
-                face_rules += 1
-                chk.require(used == {want}, "T3", "distance to the %s face for direction %s 0" %
-                            ("upper" if c["op"] == ">" else "lower", c["op"]), where(x, fn),
-                            "for direction %s 0 the distance is measured to %s" % (c["op"], sorted(used)),
-                            function=fn["full"], construct="face for direction %s 0" % c["op"])
-    # snapping: (l[a] == lmin) ? ((direction[a] > 0) ? cell_high[a] : cell_low[a]) : position[a] + lmin*direction[a]
-    for x in C.walk_stmt(body):
-        if x.get("k") == "Bin" and x["op"] == "=" and axis_subscripts(x["a"], {"position"}):
-            r = C.strip_casts(x["b"])
-            if r.get("k") == "Cond":
-                inner = C.strip_casts(r["a"])
-                okk = inner.get("k") == "Cond"
-                if okk:
-                    ic = C.strip_casts(inner["c"])
-                    okk = ic.get("k") == "Bin" and ic["op"] == ">" and zero_lit(ic["b"]) and \
-                        {nm for nm, _ in axis_subscripts(inner["a"], {"cell_high", "cell_low"})} == {"cell_high"} and \
-                        {nm for nm, _ in axis_subscripts(inner["b"], {"cell_high", "cell_low"})} == {"cell_low"}
-                n3 += 1
-                face_rules += 1
-                chk.require(okk, "T3", "the position snaps to the face that was crossed (upper for direction > 0)",
-                            where(x, fn), "snapping expression is %s" % C.pretty(r)[:120], function=fn["full"],
-                            construct="snap %s" % C.pretty(x["a"]))
-    # index step: three_index[a] += (direction[a] > 0) ? 1 : -1
-    for x in C.walk_stmt(body):
-        if x.get("k") == "Bin" and x["op"] == "+=" and axis_subscripts(x["a"], {"three_index"}):
-            r = C.strip_casts(x["b"])
-            okk = r.get("k") == "Cond" and C.const_int(r["a"]) == 1 and C.const_int(r["b"]) == -1
-            if okk:
-                ic = C.strip_casts(r["c"])
-                okk = ic.get("k") == "Bin" and ic["op"] == ">" and zero_lit(ic["b"])
-            n3 += 1
-            face_rules += 1
-            chk.require(okk, "T3", "the cell index steps +1 for direction > 0 and -1 otherwise", where(x, fn),
-                        "index step is %s" % C.pretty(r), function=fn["full"], construct="index step")
+    seen_face = seen_snap = seen_step = 0
+    for x, stack in stack_iter(body, []):
+        if x.get("k") != "Bin" or x["op"] not in ("=", "+="):
+            continue
+        tb, ti = elem(x["a"])
+        if tb is None or tb.get("n") not in ("l", "position", "three_index"):
+            continue
+        lv = loop_vars(stack)
+        rhs = x["b"]
+        for a in (0, 1, 2):
+            if not sub_axis(ti, a, lv):
+                continue
+            for sign in ("+", "-"):
+                if not reachable_under(stack, a, sign, lv):
+                    continue
+                want = "cell_high" if sign == "+" else "cell_low"
+                if tb["n"] == "l" and x["op"] == "=":
+                    if C.strip_casts(rhs).get("k") in ("Float",) or (C.strip_casts(rhs).get("k") == "Ref" and
+                                                                    C.strip_casts(rhs).get("mac") == "DBL_MAX"):
+                        continue
+                    used = walls_in(rhs, a, sign, lv)
+                    if not used:
+                        continue       # not a wall distance (e.g. DBL_MAX)
+                    n3 += 1
+                    face_rules += 1
+                    seen_face += 1
+                    chk.require(used == {want}, "T3", "axis %d, direction %s 0: the distance is measured to the %s face" %
+                                (a, ">" if sign == "+" else "<", "upper" if sign == "+" else "lower"), where(x, fn),
+                                "for direction %s 0 along axis %d the distance `%s` reads %s" %
+                                (">" if sign == "+" else "<", a, C.pretty(rhs)[:90], sorted(used)), function=fn["full"],
+                                construct="face for direction %s 0" % (">" if sign == "+" else "<"))
+                elif tb["n"] == "position" and x["op"] == "=":
+                    # the arm taken when the wall of axis a is hit: under `l[a] == lmin` (if / conditional expression)
+                    r = C.strip_casts(rhs)
+                    tie_arm = None
+                    if r.get("k") == "Cond" and "lmin" in C.pretty(r["c"]):
+                        tie_arm = r["a"]
+                    elif any(kind == "if" and arm and "lmin" in C.pretty(st["c"]) for kind, st, arm in stack):
+                        tie_arm = rhs
+                    if tie_arm is None:
+                        continue
+                    used = walls_in(tie_arm, a, sign, lv)
+                    n3 += 1
+                    face_rules += 1
+                    seen_snap += 1
+                    chk.require(used == {want}, "T3", "axis %d, direction %s 0: the position snaps to the %s face that was "
+                                "crossed" % (a, ">" if sign == "+" else "<", "upper" if sign == "+" else "lower"),
+                                where(x, fn), "on a wall hit the position becomes `%s`, which reads %s" %
+                                (C.pretty(tie_arm)[:90], sorted(used)), function=fn["full"], construct="snap axis")
+                elif tb["n"] == "three_index" and x["op"] == "+=":
+                    r = resolve(rhs, a, sign, lv)
+                    n3 += 1
+                    face_rules += 1
+                    seen_step += 1
+                    chk.require(r == ("int", 1 if sign == "+" else -1), "T3", "axis %d, direction %s 0: the cell index steps "
+                                "%+d" % (a, ">" if sign == "+" else "<", 1 if sign == "+" else -1), where(x, fn),
+                                "index step `%s` evaluates to %s" % (C.pretty(rhs)[:80], r if r[0] == "int" else
+                                                                     "an expression the case analysis cannot reduce"),
+                                function=fn["full"], construct="index step")
+    recognised = (seen_face >= 6 and seen_snap >= 6 and seen_step >= 6)
     # ties: EVERY axis whose wall distance equals the minimum is stepped (a packet leaving exactly through an edge or a
     # corner must be classified as such): each index step sits under `l[a] == lmin` for its own axis a, and the three axes
     # are all covered (a loop over 0..2 or three statements)
@@ -325,6 +475,9 @@ def run(chk, prog):
     n3 += 1
     chk.require(tie_ok, "T3", "every axis whose wall distance equals the minimum is stepped (edge and corner crossings)",
                 where(steps[0][0], fn) if steps else where(fn), tie_detail, function=fn["full"], construct="tie handling")
+    if tie_ok and not recognised:
+        raise AnalysisBroken("interact: wall distance / snap / index step not recognised for all axes and signs "
+                             "(%d, %d, %d of 6 each)" % (seen_face, seen_snap, seen_step))
     # surplus correction: after it, the optical depth used equals the target
     td0, tau, tt, lmin = S("tau_done0"), S("tau"), S("tau_target"), S("lmin")
     corr_ifs = [s for s in ifs if C.strip_casts(s["c"]).get("k") == "Bin" and C.strip_casts(s["c"])["op"] == ">=" and
@@ -397,6 +550,24 @@ def run(chk, prog):
         okk = len(th) == 1 and len(el) == 1 and C.const_int(th[0]["b"]) == D.inside and \
             C.is_call(C.strip_casts(el[0]["b"]), name="get_output_direction") and \
             C.ref_key(th[0]["a"]) == C.ref_key(rets[0]["x"]) == C.ref_key(el[0]["a"])
+    elif len(rets) == 1:
+        # the same decision as a conditional expression: r = (done >= target) ? INSIDE : get_output_direction(index)
+        ce = None
+        rx = C.strip_casts(rets[0]["x"])
+        if rx.get("k") == "Cond":
+            ce = rx
+        else:
+            for s2 in tail:
+                if s2.get("k") == "Decl":
+                    for d in s2["d"]:
+                        if ("local", d["id"], d["n"]) == C.ref_key(rx) and d.get("init") is not None and \
+                                C.strip_casts(d["init"]).get("k") == "Cond":
+                            ce = C.strip_casts(d["init"])
+        if ce is not None:
+            cc = C.strip_casts(ce["c"])
+            okk = cc.get("k") == "Bin" and cc["op"] == ">=" and C.ref_key(cc["a"]) == done_key and \
+                C.ref_key(cc["b"]) == target_key and C.const_int(ce["a"]) == D.inside and \
+                C.is_call(C.strip_casts(ce["b"]), name="get_output_direction")
     chk.require(okk, "T3", "INSIDE is returned iff the target optical depth was reached, else the classified exit",
                 where(fn), "the final classification is not `tau_done >= tau_target ? INSIDE : get_output_direction(index)`",
                 function=fn["full"], construct="final classification")
